@@ -42,6 +42,13 @@ Step(S, len) ==
       \cup {<<v, FALSE>> : v \in {w \in Nodes : \E s \in S :
                    ~s[2] /\ edge[s[1]][w] \in {"file", "filemapped"}
                    /\ IdMatch(s[1], w, edge[s[1]][w] = "filemapped", len)}}
+      \* "disguised": a definition of type remote whose format and location
+      \* are those of a local file.  Below a network hop it must not be
+      \* followed (it is a local path); from a local dataset the property is
+      \* silent (followed only in the lenient reading)
+      \cup {<<v, FALSE>> : v \in {w \in Nodes : \E s \in S :
+                   len /\ ~s[2] /\ edge[s[1]][w] = "disguised"
+                   /\ IdMatch(s[1], w, FALSE, len)}}
 RECURSIVE FixL(_, _)
 FixL(S, len) == IF Step(S, len) = S THEN S ELSE FixL(Step(S, len), len)
 Fix(S) == FixL(S, TRUE)
@@ -66,7 +73,7 @@ NoLocalBelowRemote ==
     \A s \in Fix({<<1, remoteRoot>>}) :
         (~s[2] /\ ~(s[1] = 1 /\ ~remoteRoot)) =>
             \E t \in Fix({<<1, remoteRoot>>}) :
-                ~t[2] /\ edge[t[1]][s[1]] \in {"file", "filemapped"}
+                ~t[2] /\ edge[t[1]][s[1]] \in {"file", "filemapped", "disguised"}
 
 Emit == PrintT(<<"H", ToJson([rid |-> rid, edge |-> edge, remoteRoot |-> remoteRoot,
                               offered |-> Offered, must |-> MustOffer,
